@@ -54,7 +54,10 @@ def run_entry(env, entry, cfg):
             res = entry.fn(k)
             return res, ([], [], []), None, None, []
         run_prelude(env, cfg, entry)
-        fn = lambda: entry.fn(k)
+
+        def fn():
+            run_prelude(env, cfg, entry, key="inner_prelude")
+            return entry.fn(k)
         for gn in reversed(gnames):
             fn = (lambda inner, gn=gn: (lambda: rt.guarded(k.G(gn))(inner)()))(fn)
         if gmode in (0, 1):
